@@ -153,7 +153,7 @@ func scalarEmitCheck(c *Ctx, kn string, evs []*Emit, ptrOK func(ssa.Value) bool)
 			bad("payload is loaded as %s, not string", ld.T)
 		}
 		if !ptrOK(ld.Ptr) {
-			bad("string is not loaded through the value pointer")
+			bad("string is not loaded through the value pointer (origins %v)", ptrRoots(ld.Ptr))
 		}
 		return probs
 	}
@@ -175,7 +175,7 @@ func scalarEmitCheck(c *Ctx, kn string, evs []*Emit, ptrOK func(ssa.Value) bool)
 		return probs
 	}
 	if !ptrOK(ld.Ptr) {
-		bad("value is not loaded through the value pointer")
+		bad("value is not loaded through the value pointer (origins %v)", ptrRoots(ld.Ptr))
 	}
 	want := c.repSize(ks.reps[0])
 	if got := c.Sizes.Sizeof(ld.T); got != want {
@@ -250,7 +250,7 @@ func ruleT4(c *Ctx) []Ob {
 		ptrOK := func(v ssa.Value) bool {
 			rs := ptrRoots(v)
 			for _, r := range rs {
-				if !(strings.HasPrefix(r, "param:") || strings.HasPrefix(r, "load:") || strings.HasPrefix(r, "unsafe") || strings.HasPrefix(r, "Add(")) {
+				if !(strings.HasPrefix(r, "param:") || strings.HasPrefix(r, "load:") || strings.HasPrefix(r, "unsafe") || strings.HasPrefix(r, "Add(") || r == "call:appendListHeader#2") {
 					return false
 				}
 			}
